@@ -7,6 +7,7 @@ import ast
 from .. import AnalysisError
 from ..astutil import Deps, is_name, unwrap
 from ..cfg import CFG
+from ..cfg import exc_is_sub as exc_is_sub_
 from ..domains import CompShape
 from ..engine import Analysis
 from ..kinds import NOVALUE, calls_to, classify_handler, normal_only, scenario
@@ -55,7 +56,10 @@ def _merge_components(e: ast.AST | None) -> list[ast.AST]:
 
 
 def check(an: Analysis) -> None:
+    global _PROG
     prog = an.prog
+    _PROG = prog
+    _DEPS_CACHE.clear()
     init = prog.fn(f"{ST}.__init__")
 
     # ------------------------------------------------------------------ C05.1 validate before assign
@@ -213,7 +217,7 @@ def check(an: Analysis) -> None:
                     if w is None:
                         tgt.fail(f, guards[0].ast, "a tuple of the declared length is rejected")
             else:
-                if not _is_subject(f, it, vparam, want="star") and not is_name(it, vparam):
+                if not _is_subject(f, it, vparam, want="star"):
                     tgt.fail(f, r, "the comprehension does not run over the matched container")
                 el = unwrap(sh.elt)
                 if not (len(names) == 1 and applies_single(el, 0, names[0])):
@@ -244,7 +248,14 @@ def check(an: Analysis) -> None:
     for h in [h for h in uf.own_nodes() if isinstance(h, ast.ExceptHandler)]:
         ob.inst(uf, h)
         if gu.handler_classes(h) != ["Exception"]:
-            ob.fail(uf, h, f"alternatives are skipped on {gu.handler_classes(h)} instead of Exception")
+            # a wider handler is the same thing when everything outside Exception is re-raised untouched
+            from ..kinds import classify_handler_for
+
+            passes_on = all(kind in ("reraise", "reraise-same") for cls_ in ("KeyboardInterrupt", "CancelledError", "GeneratorExit") for kind, _n, _p in classify_handler_for(gu, h, cls_))
+            keeps = any(kind in ("continue", "swallow") for kind, _n, _p in classify_handler_for(gu, h, "TypeError"))
+            covers = all(any(exc_is_sub_(c, hc) for hc in gu.handler_classes(h)) for c in ("TypeError", "ValueError", "ExceptionGroup"))
+            if not (passes_on and keeps and covers):
+                ob.fail(uf, h, f"alternatives are skipped on {gu.handler_classes(h)} instead of Exception")
 
     # ------------------------------------------------------------------ C05.6 annotation arguments
     rf = prog.fn(RES)
@@ -449,7 +460,24 @@ def check(an: Analysis) -> None:
         for r in [r for r in f.own_nodes() if isinstance(r, ast.Return)]:
             rv = unwrap(r.value)
             if not (is_name(rv, p) or (isinstance(rv, ast.Name) and dleaf.origins(rv) == {f"param:{p}"})):
-                ob.fail(f, r, "a leaf validator returns something else than the validated value: the stored attribute would differ from what was supplied")
+                # `return None` / `return MISSING` is the value itself where the path established `value is None` / `is MISSING`:
+                # in the situation "the value is some other object" the return must be unreachable
+                same = False
+                if isinstance(rv, ast.Constant) or (isinstance(rv, (ast.Name, ast.Attribute)) and "MISSING" in (dotted(rv) or "")):
+                    from ..kinds import Scenario as _ScnL
+
+                    def other_env(e: ast.AST, rv=rv, p=p):
+                        if isinstance(e, ast.Compare) and len(e.ops) == 1 and isinstance(e.ops[0], (ast.Is, ast.IsNot)):
+                            ops = [unwrap(e.left), unwrap(e.comparators[0])]
+                            if any(is_name(x, p) for x in ops) and any(ast.dump(x) == ast.dump(rv) for x in ops if not is_name(x, p)):
+                                return isinstance(e.ops[0], ast.IsNot)
+                        return NOVALUE
+
+                    scl = _ScnL(g, dleaf, other_env)
+                    rn = next((n for n in g.nodes if n.kind == "return" and n.ast is r), None)
+                    same = rn is not None and rn.id not in scl.reach
+                if not same:
+                    ob.fail(f, r, "a leaf validator returns something else than the validated value: the stored attribute would differ from what was supplied")
         w = g.search([g.entry], lambda n: n.kind == "exit-return", skip_node=lambda n: n.kind == "return", skip_edge=normal_only)
         if w is not None:
             ob.fail(f, None, "a non-conforming value falls through and is accepted as None", CFG.show_path(w))
@@ -514,6 +542,10 @@ def check(an: Analysis) -> None:
                 if not any(r.id in sc.reach for r in rets):
                     ob.fail(f, None, f"{shown} is rejected where the annotation kind accepts it")
                 continue
+            # a test on the *length* of a sized value is satisfiable (there is a bytes / str / set of the required length):
+            # it does not stand between such a value and the accepting return
+            sized = cls_name in ("str", "bytes", "bytearray", "set", "frozenset", "dict", "list", "tuple")
+            und = {n for n in und if not (sized and n.ast is not None and any(isinstance(x, ast.Call) and is_name(x.func, "len") for x in ast.walk(n.ast)))}
             w = g.search([g.entry], lambda n: n in rets, skip_edge=both_(sc.skip, normal_only), skip_node=lambda n: n in und)
             if w is not None:
                 ob.fail(f, w[-1].ast, f"{shown} is accepted by the {kind} validator (and converted element-wise) although it does not conform to the annotation", CFG.show_path(w))
@@ -635,10 +667,21 @@ def _applies(call: ast.AST | None, fname: str, arg: str) -> bool:
     return isinstance(call, ast.Call) and is_name(call.func, fname) and len(call.args) == 1 and not call.keywords and is_name(call.args[0], arg)
 
 
-def _is_subject(f: FunctionInfo, e: ast.AST, vparam: str, want: str) -> bool:
-    """e is the star / rest capture of a match on the validated value."""
+def _is_subject(f: FunctionInfo, e: ast.AST, vparam: str, want: str, _depth: int = 4) -> bool:
+    """e is the star / rest capture of a match on the validated value - or, for sequences, the validated value itself
+    reaching `e` through plain assignments (`elements = <value accepted by an isinstance guard>`, the result variable
+    of an inlined acceptance helper)."""
+    e = unwrap(e)
     if not isinstance(e, ast.Name):
         return False
+    if want == "star" and e.id == vparam:
+        return True
+    if want == "star" and _depth > 0 and capture_of(f, e.id) is None:
+        defs_ = _DEPS_CACHE.setdefault(id(f), Deps(_PROG, f)).defs(f, e.id) if _PROG is not None else []
+        vals_ = [v for k, v in defs_ if k == "value" and not (isinstance(unwrap(v), ast.Constant) and unwrap(v).value is None and getattr(parent(v), "_inline_init", False))]
+        vals_ = [v for v in vals_ if not (isinstance(unwrap(v), ast.Constant) and unwrap(v).value is None)]
+        if defs_ and len([1 for k, _ in defs_ if k != "value"]) == 0 and vals_ and all(_is_subject(f, v, vparam, want, _depth - 1) for v in vals_):
+            return True
     cap = capture_of(f, e.id)
     if cap is None or cap[0] != want:
         return False
@@ -651,6 +694,10 @@ def _is_subject(f: FunctionInfo, e: ast.AST, vparam: str, want: str) -> bool:
     if want == "star":
         return isinstance(pat, ast.MatchSequence) and len(pat.patterns) == 1 and pat.patterns[0] is cap[1]
     return isinstance(pat, ast.MatchMapping) and not pat.keys and pat is cap[1]
+
+
+_DEPS_CACHE: dict[int, Deps] = {}
+_PROG = None
 
 
 def _bound_from_origin(f: FunctionInfo, a: ast.AST | None, ann_param: str, where: ast.AST | None = None) -> bool:
